@@ -372,6 +372,9 @@ pub fn run(args: &Args) -> i32 {
     });
     // 2. confirm the representative of every class once more, alone in a child
     for (sig, _, _, rep) in coll.signatures() {
+        if sig.contains("|hang|") {
+            continue; // every hang was already repeated alone when it was seen
+        }
         let name = rep["deserializer"].as_str().unwrap_or("").to_string();
         let e = find_entry(&name);
         let o = run_single(&name, rep["bytes"].as_str().unwrap_or(""));
